@@ -7,4 +7,5 @@ for id in "$@"; do
   /verif/check "$id" quick 2>&1 | grep -E "VIOLATION|KNOWN-FINDING|tier:|obligation FAILED" 
   echo "rc=$?"
 done
-git -C /repo checkout -- . 
+git -C /repo checkout -- .
+python3 /verif/translate/translate.py /repo /verif/lean/VpnCloud/Generated
